@@ -50,6 +50,8 @@ LOOKUPS = [0, 1, 2, 3, 7, 8, 2 ** 40]
 # legal FIX; a store that compares them numerically merges (T,S) with its mirror), S2 is alphabetic.
 POOL = [("007", "7", "SND2"), ("07", "7", "FIRM"), ("7", "007", "CLI"), ("0010", "10", "EXCH")]
 
+COLLIDING = [("7:7", "7", "SND2"), ("A|A", "A", "FIRM"), ("X-X", "X", "CLI"), ("Q:Q", "Q", "EXCH")]
+
 CL_RANGE = ("a stored message is returned unchanged by every range query that includes its number, in "
             "ascending number order and only for its own session and direction")
 CL_STORE = "storing number n makes n+1 that direction's next number"
@@ -716,8 +718,36 @@ def _path():
     return os.path.join(_TMP["dir"], "j%d_%d.store" % (os.getpid(), _TMP["n"]))
 
 
-def run_case(names, ops, full=True, filemode=False):
-    """Replay ops[:-1] on a fresh real Journaler, apply ops[-1], judge. -> (violations, stats)"""
+def _pre_observe(real, state):
+    """Every read-only call of the journal, results ignored: the observers must not change what the next operation
+    and the observation after it see (anything the object remembers from a read is hidden state the model key
+    cannot contain)."""
+    j = real.j
+    try:
+        j.sessions()
+    except Exception:  # noqa
+        pass
+    for si in range(3):
+        if state[si] is None:
+            continue
+        try:
+            h = real.load(si)
+            for d in (IN, OUT):
+                j.recover_messages(h, real.D[d], 0, MAXI)
+                j.recover_msg(h, real.D[d], 1)
+            j.get_all_msgs([h.key])
+        except Exception:  # noqa
+            pass
+    try:
+        j.get_all_msgs()
+        j.sessions()
+    except Exception:  # noqa
+        pass
+
+
+def run_case(names, ops, full=True, filemode=False, preobs=False):
+    """Replay ops[:-1] on a fresh real Journaler, apply ops[-1], judge. -> (violations, stats)
+    preobs: every observer is called once between the prefix and the last operation ("observers are pure")."""
     names = tuple(names)
     ops = [tuple(o) for o in ops]
     rev = _REV.get(names)
@@ -735,6 +765,8 @@ def run_case(names, ops, full=True, filemode=False):
         real.apply(op)
     last = ops[-1]
     state1, info = m_step(state, last)
+    if preobs:
+        _pre_observe(real, state)
     outcome = real.apply(last)
     J = Judge(names, rev)
     judge_transition(real, state, last, state1, info, outcome, full, J)
@@ -755,10 +787,13 @@ def run_case(names, ops, full=True, filemode=False):
             J.v = [x for x in J.v if x[0].startswith(PATHS_ONLY)]
     out = []
     for sig, clause, detail in J.v:
+        if preobs:
+            sig = "observer_changes_outcome:" + sig
+            detail = dict(detail, note="the same sequence without the read-only calls before the last operation is fine")
         out.append({"signature": sig, "clause": clause,
                     "detail": dict(detail, sequence=[list(o) for o in ops]),
                     "replay": {"names": list(names), "ops": [list(o) for o in ops], "full": bool(full),
-                               "file": bool(filemode)}})
+                               "file": bool(filemode), "preobs": bool(preobs)}})
     if filemode:
         real.drop()
         if own_tmp is not None:
@@ -807,6 +842,13 @@ def _expand(item):
     for idx, op in enumerate(m_enabled(state, mode)):
         full = FULL_ALL or idx in newidx
         vs, (c, e, oc, t, nt, tn) = run_case(NAMES, list(seq) + [op], full, mode == FILE2)
+        if not vs and not tn and seq:
+            # differential pass: the same transition with every observer called before the operation
+            vs, (c2, e2, oc2, _t2, _nt2, tn2) = run_case(NAMES, list(seq) + [op], False, mode == FILE2, preobs=True)
+            c += c2
+            e += e2
+            if tn2:
+                vs = []
         taint += tn
         n += 1
         calls += c
@@ -905,6 +947,9 @@ def run(ctx):
     seen_f = {m_key(m_init())}
     level = [((), m_init(), frozenset())]
     FULL_ALL = True
+    # CompIDs of this pass: T contains the separators a careless composite key would join with, so that (T,S) and
+    # its mirror (S,T) render to the same string under "T<sep>S" for ':' - legal FIX strings, distinct sessions
+    NAMES = COLLIDING[ctx.seed % len(COLLIDING)]
     tmp = TmpDir()
     _TMP["dir"] = tmp.path
     try:
@@ -971,5 +1016,5 @@ def run(ctx):
 
 
 def replay(ctx, rep):
-    vs, _ = run_case(tuple(rep["names"]), rep["ops"], rep.get("full", True), rep.get("file", False))
+    vs, _ = run_case(tuple(rep["names"]), rep["ops"], rep.get("full", True), rep.get("file", False), rep.get("preobs", False))
     return vs
